@@ -704,6 +704,17 @@ impl Transaction {
             return;
         }
 
+        //
+        // transactions which only a block creator can make (ATR, Fee, Issuance, SPV) were
+        // never routed to anybody : validate() does not check their routing path and neither
+        // the rebroadcast hash nor the merkle root covers it. whatever path is attached to
+        // them is not routing work.
+        //
+        if self.is_only_valid_inside_block() {
+            self.total_work_for_me = 0;
+            return;
+        }
+
         // something is wrong if we are not the last routing node
         let last_hop = &self.path[self.path.len() - 1];
         if last_hop.to.ne(public_key) {
